@@ -161,3 +161,12 @@ reg(PropertySpec(
                  "same sampling arguments and random sources are supplied on resume (as the property states)"],
     miss=["the resume_from_file route is covered by the bounded stand-in and by C13's configuration round trip", "kernel-internal state of third-party packages"],
 ))
+
+reg(PropertySpec(
+    "C19", "Temporary overrides are fully restored on every exit path",
+    functions=["utils:PoolHandler.__exit__", "aspire:Aspire.auto_checkpoint"],
+    native=_lazy("checks.native_misc", "native_C19"),
+    technique="contract-based deductive verification: symbolic execution of the real PoolHandler.__enter__ + __exit__ and of the real generator body of Aspire.auto_checkpoint (split at the yield; body outcome normal / exception / mutating the current defaults) with heap identity: post-state of the guarded attributes is the pre-state (object identity and contents); single-level contract + stack discipline gives every nesting depth; bounded native nesting enumeration",
+    assumptions=["@contextmanager runs the code after `yield` on normal exit and re-raises the body's exception at the yield point (assumed contract of contextlib)",
+                 "the with-body may mutate only the *current* defaults dictionary (which is what fit/sample_posterior do)"],
+))
